@@ -128,3 +128,10 @@ Theorem C09_fve_in_unit_interval : forall (n p : nat) (X u : list (list R)), wf 
   mmul OR 1 p 1 (mH OR p 1 u) u = mI OR 1 -> (0 < frob2 OR n p X)%R -> (0 <= fve_src OR n p X u <= 1)%R.
 Proof. exact C09_fve_real.fve_in_unit_interval. Qed.
 Print Assumptions C09_fve_in_unit_interval.
+
+(* the functions of this property whose Gallina counterpart is hand-written (or that only the oracles reach) still read, statement by statement, as they did when
+   the model was last validated against them (Gen/T9text.v regenerated from the source on every run; Proofs/Text_C09.v holds the validated text) *)
+From XV Require Gen.T9text Proofs.Text_C09.
+Theorem C09_hand_modelled_functions_read_as_validated : Text_C09.all_frozen.
+Proof. exact Text_C09.all_frozen_holds. Qed.
+Print Assumptions C09_hand_modelled_functions_read_as_validated.
